@@ -1315,10 +1315,11 @@ static void CodeALIGN(Word Index) {
                 if (1 == ArgCnt) {
                     DontPrint = !!CodeLen;
                     BookKeeping();
-                } else if (CodeLen > (LongInt)MaxCodeLen) {
+                } else if (SetMaxCodeLen((LongWord)CodeLen * Granularity())) {
                     WrError(ErrNum_CodeOverflow);
+                    CodeLen = 0;
                 } else {
-                    memset(BAsmCode, AlignFill, CodeLen);
+                    memset(BAsmCode, AlignFill, (size_t)CodeLen * Granularity());
                     DontPrint = False;
                 }
             }
